@@ -123,6 +123,13 @@ pub fn settings(r: &mut Sm, thorough: bool) -> Vec<Spec> {
         let b: Vec<(f64, f64)> = (0..n).map(|_| *r.pick(&rb)).collect();
         v.push(Spec::plain(Wrap::R, CK::R { n, bounds: Some(b) }, None));
     }
+    // beyond 8 / 16 coordinates (block-wise loops have their own tails); finite bounds so that
+    // sampling is exercised too
+    let fin: Vec<(f64, f64)> = rb.iter().copied().filter(|b| b.0.is_finite() && b.1.is_finite() && (b.1 - b.0).is_finite()).collect();
+    for n in [8usize, 9, 17] {
+        let b: Vec<(f64, f64)> = (0..n).map(|_| *r.pick(&fin)).collect();
+        v.push(Spec::plain(Wrap::R, CK::R { n, bounds: Some(b) }, None));
+    }
     let s2 = so2_bound_choices(r);
     for b in &s2 {
         v.push(Spec::plain(Wrap::So2, CK::So2 { bounds: *b }, None));
